@@ -203,6 +203,17 @@ func genC12(e *emitter, r *rng, tier string) {
 		}
 		e.count("C12.prompt")
 	}
+	// ... and with a fault before the LAST of several ranges: the digits between the ranges must
+	// not be computed once the writer has failed
+	for i := 0; i < 30; i++ {
+		k := r.pick([]int{0, 1, 10, 30})
+		o := fmt.Sprintf("B%d", r.pick([]int{1, 4, 16}))
+		far := r.pick([]int{2500, 4000, 9000})
+		for v := 1; v <= 3; v++ {
+			emitScriptLine(e, v, "G:-1:1:0", fmt.Sprintf("cons;fpr:0:r0~20,r%d~%d:%s:%d:%d;cons", far, far+20, o, r.intn(3), k))
+		}
+		e.count("C12.prompt.multirange")
+	}
 }
 
 func init() {
